@@ -1,4 +1,7 @@
-(** * C06 — snapping is total: the spike-removal part (kmpDeduplicate and its helpers).
+(** * C06 — snapping is total: the spike-removal part (kmpDeduplicate and its helpers), and END TO END:
+      every other stage is total on every in-grid polygon, so snapPolygon can only fail inside kmpDeduplicate
+      ([C06_snapPolygon_errors_only_from_spike_removal]) and never fails on the class of C18
+      ([C06_snapPolygon_total_on_class]); section END TO END at the end of this file.
 
     Proved for ALL inputs: the three search helpers never index out of range and never loop
     ([C06_search_total]); kmpDeduplicate never loops, and can fail in two ways only
@@ -202,3 +205,117 @@ Theorem C06_deep_level_refuted : exists g P levels cfg,
   0 < gres g /\ Forall (insideGrid g) (concat P) /\ snapPolygonFull g P levels cfg = Err MustToZ.
 Proof. exact deep_level_refuted. Qed.
 Print Assumptions C06_deep_level_refuted.
+
+(** * END TO END: snapPolygon (Snap/ProofsJoinC06.v).
+
+    Every stage of the model other than kmpDeduplicate is total on every in-grid input: routing never returns an
+    empty centre list for an edge of the indexed polygon (C02), so cleanupNewVertices cannot fail; splitRing is only
+    called on non-empty rings; dedupeInnersOuters only indexes ring numbers in range and positions modulo the common
+    length of two non-empty rings; matchInnersToPolygons only reads first/last vertices of non-empty shells and its
+    fall-back index is only passed to append_inner; rings of fewer than three vertices and empty rings are handled
+    before any of this; a level whose shell collapses is dropped.  The loops other than kmp's are structural.
+    [routedClean g hots L idx r] (Properties/C18.v) is the ring handed to kmpDeduplicate. *)
+From Texel Require Import Index.ProofsRouting Snap.ProofsLevel Snap.ProofsJoinC18 Snap.ProofsJoinC06.
+
+(** for every polygon (valid or not, any rings) whose vertices are all in the grid, every list of levels within the
+    index, every configuration: IF snapPolygon fails, THEN kmpDeduplicate failed with that very error on a
+    routed-and-cleaned ring of at least three vertices of some requested level — and the error is a ring[-1] access
+    or a slice out of bounds in RemoveSequences, never NoPointsFound, PartialRingsOnStack, OutOfFuel (no hang), ...
+    This is the exact shape of the known finding F13 ([C06_kmp_total_refuted]). *)
+Theorem C06_snapPolygon_errors_only_from_spike_removal : forall g P levels cfg hs e, 0 < gres g -> RootCovers g ->
+  (forall L, In L levels -> (L <= gdeep g)%nat) -> insertPolygon g P = Ok hs ->
+  snapPolygon g P levels cfg = Err e ->
+  exists L idx r, In L levels /\ nth_error P idx = Some r /\
+    (exists c, routedClean g (hotLevels g hs) L idx r = Ok c /\ (3 <= length c)%nat /\ kmpDeduplicate c = Err e) /\
+    (e = IndexOutOfRange \/ e = SliceBounds).
+Proof. exact snapPolygon_errors_from_kmp. Qed.
+Print Assumptions C06_snapPolygon_errors_only_from_spike_removal.
+
+(** ON THE CLASS OF C18 (every routed-and-cleaned ring of every requested level visits no pixel centre at three
+    positions) snapPolygon returns normally: never an error of any kind *)
+Theorem C06_snapPolygon_total_on_class : forall g P levels cfg hs, 0 < gres g -> RootCovers g ->
+  (forall L, In L levels -> (L <= gdeep g)%nat) -> insertPolygon g P = Ok hs ->
+  (forall L idx r c, In L levels -> nth_error P idx = Some r ->
+     routedClean g (hotLevels g hs) L idx r = Ok c -> le2 c) ->
+  exists res, snapPolygon g P levels cfg = Ok res.
+Proof. exact snapPolygon_total_on_class. Qed.
+Print Assumptions C06_snapPolygon_total_on_class.
+
+(** the same stated on the vertices: all inside the grid ([insideGrid], C09) *)
+Theorem C06_snapPolygon_total_on_class_inGrid : forall g P levels cfg, 0 < gres g -> RootCovers g ->
+  (forall L, In L levels -> (L <= gdeep g)%nat) -> Forall (insideGrid g) (concat P) ->
+  (forall hs L idx r c, insertPolygon g P = Ok hs -> In L levels -> nth_error P idx = Some r ->
+     routedClean g (hotLevels g hs) L idx r = Ok c -> le2 c) ->
+  exists res, snapPolygon g P levels cfg = Ok res.
+Proof. exact snapPolygon_total_on_class_inGrid. Qed.
+Print Assumptions C06_snapPolygon_total_on_class_inGrid.
+
+(** the model with the Morton-key limit, the one the correspondence runs: the same up to deepest level 32 *)
+Theorem C06_snapPolygonFull_total_on_class : forall g P levels cfg hs, (gdeep g <= 32)%nat -> 0 < gres g -> RootCovers g ->
+  (forall L, In L levels -> (L <= gdeep g)%nat) -> insertPolygon g P = Ok hs ->
+  (forall L idx r c, In L levels -> nth_error P idx = Some r ->
+     routedClean g (hotLevels g hs) L idx r = Ok c -> le2 c) ->
+  exists res, snapPolygonFull g P levels cfg = Ok res.
+Proof. exact snapPolygonFull_total_on_class. Qed.
+Print Assumptions C06_snapPolygonFull_total_on_class.
+
+Theorem C06_snapPolygonFull_errors_only_from_spike_removal : forall g P levels cfg hs e, (gdeep g <= 32)%nat ->
+  0 < gres g -> RootCovers g -> (forall L, In L levels -> (L <= gdeep g)%nat) -> insertPolygon g P = Ok hs ->
+  snapPolygonFull g P levels cfg = Err e ->
+  exists L idx r, In L levels /\ nth_error P idx = Some r /\
+    (exists c, routedClean g (hotLevels g hs) L idx r = Ok c /\ (3 <= length c)%nat /\ kmpDeduplicate c = Err e) /\
+    (e = IndexOutOfRange \/ e = SliceBounds).
+Proof. exact snapPolygonFull_errors_from_kmp. Qed.
+Print Assumptions C06_snapPolygonFull_errors_only_from_spike_removal.
+
+(** the stages, for every input *)
+Theorem C06_dedupe_total : forall outs ins, Forall (fun x : ring => x <> []) (outs ++ ins) ->
+  exists r, dedupeInnersOuters outs ins = Ok r.
+Proof. exact dedupe_total. Qed.
+Print Assumptions C06_dedupe_total.
+
+Theorem C06_match_total : forall (outs ins : list ring), Forall (fun x : ring => x <> []) outs ->
+  exists ps, matchInnersToPolygons (map (fun o => [o]) outs) ins = Ok ps.
+Proof. exact match_total. Qed.
+Print Assumptions C06_match_total.
+
+Theorem C06_level_errors_only_from_spike_removal : forall g hots P cfg L e,
+  (forall idx r, nth_error P idx = Some r -> forall a b,
+     In (a, b) (ProofsBasics.dedges (ensureCorrectWindingOrder r (negb (Nat.eqb idx 0)))) ->
+     snapClosestPoints g hots a b L <> []) ->
+  snapLevel g hots P cfg L = Err e ->
+  exists idx r, nth_error P idx = Some r /\
+    exists c, routedClean g hots L idx r = Ok c /\ (3 <= length c)%nat /\ kmpDeduplicate c = Err e.
+Proof. exact level_errors_from_kmp. Qed.
+Print Assumptions C06_level_errors_only_from_spike_removal.
+
+(** non-vacuity.  (a) the neck polygon of Properties/C18.v with a ring of two vertices and an empty ring added: all
+    hypotheses hold at levels 5, 3, 2 (32 x 32 pixels of size 2) and snapPolygon returns.  (b) outside the class the
+    failure is real at polygon level: the 33-vertex ring of F13 on three neighbouring pixels makes snapPolygon fail
+    with SliceBounds, in either direction. *)
+Definition c06G : grid := mkGrid (mkExtent 0 0 64 64) 2 5.
+Definition c06Neck : list ring :=
+  [[(2,2);(22,2);(22,29);(42,29);(42,2);(62,2);(62,62);(42,62);(42,31);(22,31);(22,62);(2,62)]; [(50,50);(52,52)]; []].
+Definition c06F13 : list ring := [map (fun p => (2 * fst p + 3, 2 * snd p + 3)) ring33].
+
+Example C06_snapPolygon_total_on_class_example :
+  (exists hs, insertPolygon c06G c06Neck = Ok hs /\
+     0 < gres c06G /\ RootCovers c06G /\ (forall L, In L [5; 3; 2]%nat -> (L <= gdeep c06G)%nat) /\
+     (forall L idx r c, In L [5; 3; 2]%nat -> nth_error c06Neck idx = Some r ->
+        routedClean c06G (hotLevels c06G hs) L idx r = Ok c -> le2 c)) /\
+  snapPolygon c06G c06Neck [5; 3; 2]%nat (mkConfig true false false) =
+    Ok [(5%nat, [[[(3,3);(23,3);(23,29);(43,29);(43,3);(63,3);(63,63);(43,63);(43,31);(23,31);(23,63);(3,63)]]; [[(51,51);(53,53)]]]);
+        (3%nat, [[[(4,4);(20,4);(20,28);(20,60);(4,60)]]; [[(44,28);(44,4);(60,4);(60,60);(44,60)]]; [[(20,28);(44,28)]]; [[(52,52)]]]);
+        (2%nat, [[[(8,8);(24,8);(24,24);(24,56);(8,56)]]; [[(40,24);(40,8);(56,8);(56,56);(40,56)]]; [[(24,24);(40,24)]]; [[(56,56)]]])] /\
+  snapPolygon c06G c06F13 [5%nat] (mkConfig false false false) = Err SliceBounds /\
+  snapPolygon c06G [rev (hd [] c06F13)] [5%nat] (mkConfig false false false) = Err SliceBounds.
+Proof.
+  split.
+  { destruct (insertPolygon c06G c06Neck) as [hs |] eqn:E; [| vm_compute in E; discriminate].
+    exists hs. split; [reflexivity |]. vm_compute in E. inversion E; subst hs. clear E.
+    split; [reflexivity |]. split; [vm_compute; repeat split; discriminate |]. split.
+    - intros L HL. cbn [In] in HL. destruct HL as [<- | [<- | [<- | []]]]; cbn [gdeep c06G]; repeat constructor.
+    - intros L idx r c HL. revert idx r c. apply class_le2b_sound. cbn [In] in HL.
+      destruct HL as [<- | [<- | [<- | []]]]; vm_compute; reflexivity. }
+  vm_compute. repeat split; reflexivity.
+Qed.
